@@ -533,6 +533,22 @@ def c08(tier, replay=None):
             body = "\n".join(body_lines)
             doc = "#\\#CIF_2.0" + e + "data_b" + e + "_n1" + e + ";" + body.replace("\n", e) + e + ";" + e + "_n2 'after'" + e
             longs.append((doc, n, eol, body))
+    # long text fields made of supplementary characters (two UTF-16 units, four UTF-8 bytes each) with 65-unit lines, after
+    # some three-byte characters that put the byte reads out of step with the unit buffer; with 0..3 blanks of padding in
+    # front a surrogate pair straddles every kind of boundary (read, full scan buffer) in one of the variants
+    for pad in ((0, 1, 2, 3, 4, 5) if tier == "quick" else range(8)):
+        body = "\u20ac" * 1000 + "\n" + "\n".join("\U0001f600" * 32 for _ in range(2200 if tier == "quick" else 4500))
+        doc = "#\\#CIF_2.0\n" + " " * pad + "data_b\n_n1\n;" + body + "\n;\n_n2 'after'\n"
+        longs.append((doc, len(body), "lf", body))
+        # the same with single-byte filler in between: then a read of 4096 bytes yields more units than the scan buffer has
+        # room for when it is nearly full, and the conversion stops exactly at the buffer's end (inside the emoji lines)
+        for cap in (131200,) if tier == "quick" else (131200, 262400):
+            head_units = 11 + 7 + 4 + 1        # without the padding: the padding shifts everything behind it by one unit each
+            filler_units = cap - 320 - head_units - 1001
+            filler = "\n".join(("F%06d:" % i + "abcdefghijklmnopqrstuvwxyz0123456789ABCDEFGHIJKLMNOPQRSTUVWXYZ")[:63] for i in range(filler_units // 64 + 1))[:filler_units - 1] + "\n"
+            body2 = "\u20ac" * 1000 + "\n" + filler + "\n".join("\U0001f600" * 32 for _ in range(10)) + "\n" + "\n".join("tail line %d" % i for i in range(400))
+            doc2 = "#\\#CIF_2.0\n" + " " * pad + "data_b\n_n1\n;" + body2 + "\n;\n_n2 'after'\n"
+            longs.append((doc2, len(body2), "lf", body2))
     for doc, n, eol, body in longs:
         jobs.append((doc, len(meta))); meta.append((-1, eol, 0, ("long", n, body)))
     nok = total = 0
